@@ -373,9 +373,12 @@ class _GroupElem(ABC):
 
         assembly = np.zeros((Ne, ndof), dtype=np.int64)
 
+        # widen before scaling: node * dof_n may not fit in the integer type of connect (int16, uint16, ...)
+        connect = np.asarray(connect, dtype=np.int64)
+
         for d in range(dof_n):
             columns = np.arange(d, ndof, dof_n)
-            assembly[:, columns] = np.array(connect) * dof_n + d
+            assembly[:, columns] = connect * dof_n + d
 
         return assembly
 
